@@ -1,5 +1,10 @@
 //@item src/charwise.rs struct CharwiseDoubleArrayAhoCorasick
+//@item src/lib.rs struct Match
 //@include intoiter.rs
+//@include ghost_utf8.rs
+//@include ghost_iter_cw.rs
+//@include ghost_nfa_outs_cw.rs
+//@include ghost_ac_cw.rs
 //@include ghost_wrap_cw.rs
 
 //@impl src/charwise/builder.rs impl CharwiseDoubleArrayAhoCorasickBuilder
@@ -21,6 +26,9 @@
             // the mapper covers every label of the NFA with a distinct code below alphabet_size
             &&& mapper_covers(nfa, final(self).mapper.table@, final(self).mapper.alphabet_size)
             &&& cw_table_ok(final(self).mapper.table@, final(self).mapper.alphabet_size) && final(self).mapper.alphabet_size <= 0x110000
+            // C06: registered patterns carry the value of their pair; standard kind: the (assumed) Aho-Corasick contract of the passes
+            &&& values_are(nfa, into_items(patvals), into_items(patvals).len() as int)
+            &&& old(self).match_kind is Standard ==> ac_fail(nfa) && ac_outs(nfa)
         },
         Err(e) => match e {
             DaachorseError::InvalidArgument => into_items(patvals).len() == 0 || has_empty(into_items(patvals)) || has_huge(into_items(patvals)),
@@ -43,7 +51,7 @@
         verif_it1.obeys_prophetic_iter_laws(), verif_it1.decrease().is_some(), verif_it1.remaining() == items.skip(k),
         add_inv(nfa), reach_ok(nfa), nfa.match_kind == self.match_kind, nfa.len <= k, nfa.states@.len() <= u32::MAX as nat + 1,
         k > 0 ==> nfa.len > 0,
-        seen_is(nfa, items, k),
+        seen_is(nfa, items, k), values_are(nfa, items, k),
         forall|i: int| 0 <= i < k ==> (#[trigger] pat_at(items, i)).len() > 0,
         forall|i: int, j: int| 0 <= i < j < k ==> #[trigger] pat_at(items, i) != #[trigger] pat_at(items, j),
         // frequencies
@@ -91,6 +99,11 @@
         if k == 0 { assert(!add_shadowed(n_b, pk)) by {
             if add_shadowed(n_b, pk) { let kk = choose|kk: int| 0 <= kk < pk.len() && is_registered(n_b, pk.take(kk)); assert(seen(n_b, pk.take(kk))); }
         } }
+        // values
+        assert forall|j: int| 0 <= j < k + 1 && is_registered(nfa, #[trigger] pat_at(items, j)) implies reg_out(nfa, pat_at(items, j)).unwrap().0 == items[j].1 by {
+            if j < k { assert(pat_at(items, j) != pk); assert(is_registered(n_b, pat_at(items, j))); }
+            else { assert(items[k] == (pattern, value)); }
+        }
     }
     let ghost f_b = freqs@;
 //@}
@@ -164,6 +177,7 @@
         assert(passes_frame(n_f, nfa));
         assert(passes_frame(n_a, nfa));
         lemma_frame_keeps_trie(n_a, nfa);
+        lemma_frame_keeps_values(n_a, nfa, items, items.len() as int);
         assert(fails_ok(nfa, lm_of(self.match_kind))) by { lemma_links_same_fail(n_f, nfa, lm_of(self.match_kind)); }
         lemma_trie_gives_tree(nfa);
         assert(seen_is(nfa, items, items.len() as int));
@@ -177,15 +191,11 @@
     requires verif_self.states@.len() == 0, verif_self.num_free_blocks >= 1, into_lawful(patvals), into_items(patvals).len() < usize::MAX,
         total_chars(into_items(patvals), into_items(patvals).len() as int) < u32::MAX
     ensures match r {
-        Ok(pma) => {
-            &&& pats_valid(into_items(patvals))
-            &&& pma.match_kind == verif_self.match_kind
-            // the automaton satisfies the precondition of every search entry point
-            &&& automaton_ok_cw(pma, lm_of(verif_self.match_kind))
-            // C15: num_states is the number of trie states without the dead state
-            &&& exists|n: NfaBuilder<char, V>| trie_ok(n) && reach_ok(n) && seen_is(n, into_items(patvals), into_items(patvals).len() as int)
-                    && #[trigger] n.states@.len() == pma.num_states + 1 && pma.states@.len() >= n.states@.len()
-        },
+        // Ok: as for the byte-wise wrapper (cwv_post): valid collection; the automaton satisfies the precondition of every search
+        // entry point; num_states / array length against the trie; values; standard kind: the three streams on well-formed UTF-8
+        // equal the semantics over the decoded characters (relative to the assumed contract of the fail/output passes)
+        Ok(pma) => pma.match_kind == verif_self.match_kind
+            && cwv_post(pma.states@, pma.mapper.table@, pma.outputs@, pma.num_states, into_items(patvals), verif_self.match_kind),
         Err(e) => match e {
             DaachorseError::InvalidArgument => into_items(patvals).len() == 0 || has_empty(into_items(patvals)) || has_huge(into_items(patvals)),
             DaachorseError::DuplicatePattern => has_dup(into_items(patvals)),
@@ -199,12 +209,8 @@
 //@}
 //@before 1 Ok(CharwiseDoubleArrayAhoCorasick {{
     proof {
-        let st = verif_me.states@;
-        let tb = verif_me.mapper.table@;
-        let idmap = choose|idmap: Seq<u32>| cw_built(st, tb, nfa, idmap);
-        lemma_encodes_gives_wf(nfa, st, tb, verif_me.mapper.alphabet_size, verif_me.block_len, idmap, lm_of(verif_self.match_kind));
-        lemma_built_outs_ok_cw(st, tb, nfa, idmap);
-        lemma_slots_at_least_states_cw(st, tb, nfa, idmap);
+        assert(verif_me.match_kind == verif_self.match_kind);
+        lemma_cwv_post(nfa, verif_me.states@, verif_me.mapper.table@, verif_me.mapper.alphabet_size, verif_me.block_len, num_states, into_items(patvals), verif_self.match_kind);
     }
 //@}
 //@endimpl
